@@ -335,6 +335,28 @@ def run(ctx) -> None:
     check_n3(ctx)
     check_n4(ctx)
     check_n5(ctx)
+    ctx.rule('N7', 'every report writer class stores the output file it is constructed with (directly or by forwarding it to its parent)')
+    n7 = 0
+    repo = ctx.repo
+    for ci in repo.classes.get('Outputs', []):
+        for sub in [ci] + repo.subclasses(ci):
+            init = sub.methods.get('__init__')
+            if init is None:
+                continue
+            params = [a.arg for a in init.node.args.args + init.node.args.kwonlyargs]
+            if 'output_file' not in params:
+                continue
+            n7 += 1
+            stores = any(isinstance(st, ast.Assign) and norm(st.targets[0]) == 'self.output_file' and 'output_file' in norm(st.value)
+                         for st in ast.walk(init.node))
+            forwards = any(isinstance(c, ast.Call) and isinstance(c.func, ast.Attribute) and c.func.attr == '__init__' and
+                           (any(norm(a) == 'output_file' for a in c.args) or any(k.arg == 'output_file' and norm(k.value) == 'output_file' for k in c.keywords))
+                           for c in ast.walk(init.node))
+            ctx.check(stores or forwards, 'N7', f'{sub.name}.__init__/keeps-output_file', f'{sub.module.rel}:{init.node.lineno}',
+                      f'{sub.name}.__init__ takes output_file but neither stores it nor passes it to its parent: the report of this model family is '
+                      f'written to the default HDR.out in the package directory instead of the requested path (the client and the command line '
+                      f'then find no report)', fact='self.output_file = output_file' if stores else 'forwarded to the parent')
+    ctx.floor('N7', n7, 2, 'report writer constructors')
     ctx.rule('N6', 'client dictionary requests are written to the input file with str(value): the same values give the same run as a file')
     from rules.client_common import check_lossless_rendering
     n6 = check_lossless_rendering(ctx, 'N6')
